@@ -476,6 +476,7 @@ pub const CL_CNAME_READD: &str = "identical-cname-readd-bumps-serial";
 pub const CL_GHOST: &str = "emptied-rrset-left-in-zone";
 pub const CL_PRE_LOOKUP: &str = "prereq-uses-query-lookup";
 pub const CL_PRE_SUBSET: &str = "prereq-value-dependent-subset";
+pub const CL_T65535: &str = "type-65535-escapes-cname-check";
 
 fn parent_tok(n: &str) -> Option<String> {
     // "F:aa.bb.cc" → "F:bb.cc"
@@ -490,6 +491,7 @@ fn parent_tok(n: &str) -> Option<String> {
 }
 
 struct Triggers {
+    t65535: bool,
     soa_lost: bool,
     overflow: bool,
     plaincmp: bool,
@@ -507,7 +509,13 @@ fn triggers(before: &Snap, zname: &str, pre: &[MRR], upd: &[MRR]) -> Triggers {
     // a zone that has already lost its apex SOA can only be the aftermath of the overflow panic
     // (`increment_soa_serial` removes the SOA before `serial += 1`); every later message meets it
     let soa_lost = !z.iter().any(|r| r.rtype == T_SOA && r.name == zname);
-    let mut t = Triggers { soa_lost, overflow: before.serial == u32::MAX || soa_lost, plaincmp: false, nonapex_soa: false, dup_ttl: false, cname_readd: false, ghost: false, pre_lookup: false, pre_subset: false };
+    // a CNAME meets (in the zone or in this message) an RRset of type 65535 at the same name: the range
+    // scan of `upsert` ends *before* `Unknown(65535)`
+    let t65535 = z.iter().map(|r| (&r.name, r.rtype)).chain(upd.iter().filter(|r| r.class == C_IN).map(|r| (&r.name, r.rtype))).any(|(nm, ty)| {
+        ty == 65535
+            && (z.iter().any(|r| &r.name == nm && r.rtype == T_CNAME) || upd.iter().any(|r| r.class == C_IN && &r.name == nm && r.rtype == T_CNAME))
+    });
+    let mut t = Triggers { t65535, soa_lost, overflow: before.serial == u32::MAX || soa_lost, plaincmp: false, nonapex_soa: false, dup_ttl: false, cname_readd: false, ghost: false, pre_lookup: false, pre_subset: false };
     // RRs the message itself has added so far (for duplicates inside one message)
     let mut added: Vec<&MRR> = vec![];
     let mut emptied_names: Vec<&str> = before.ghosts.iter().map(|g| g.0.as_str()).collect();
@@ -680,7 +688,7 @@ pub fn judge(origin: &Name, before: &Snap, after: &Snap, pre: &[Record], upd: &[
             let want = as_set(&ref_apply(&before.rrs, &zname, &upd_m, VARIANTS[1]), Some(&zname));
             let missing: Vec<String> = want.difference(&got).take(3).map(|r| format!("{}/{} {}:{}", r.name, r.rtype, r.ttl, r.rd)).collect();
             let extra: Vec<String> = got.difference(&want).take(3).map(|r| format!("{}/{} {}:{}", r.name, r.rtype, r.ttl, r.rd)).collect();
-            let cls = first(&[(t.plaincmp, CL_PLAINCMP), (t.nonapex_soa, CL_NONAPEX_SOA), (t.dup_ttl, CL_DUP_TTL), (t.ghost, CL_GHOST)]);
+            let cls = first(&[(t.plaincmp, CL_PLAINCMP), (t.nonapex_soa, CL_NONAPEX_SOA), (t.dup_ttl, CL_DUP_TTL), (t.ghost, CL_GHOST), (t.t65535, CL_T65535)]);
             fails.push((format!("zone after the update differs from RFC 2136 §3.4.2: missing {missing:?} unexpected {extra:?}"), cls.into()));
         }
     }
@@ -693,6 +701,7 @@ pub fn judge(origin: &Name, before: &Snap, after: &Snap, pre: &[Record], upd: &[
                 let had = before.rrs.iter().any(|r| r.rtype == T_SOA && r.name != zname);
                 first(&[(t.nonapex_soa || had, CL_NONAPEX_SOA)])
             }
+            "cname" => first(&[(t.t65535, CL_T65535)]),
             _ => "",
         };
         fails.push((what, cls.into()));
@@ -1081,7 +1090,7 @@ pub fn run(o: &Opts, rec: &mut Recorder) {
     }
     rec.corpus_cases = rec.cases.len();
     let mut rng = Rng::new(o.seed);
-    let histories = o.n(700, 40_000);
+    let histories = o.n(20_000, 400_000);
     for _ in 0..histories {
         let mut r = rng.fork();
         for l in gen_history(&mut r) {
